@@ -547,17 +547,17 @@ func randomScenarioN(r *rand.Rand, nver, minNodes, maxNodes, na, nslots, maxEdit
 				if v == 0 {
 					e.Acct = i
 				}
-				switch c := r.Intn(12); {
+				switch c := r.Intn(14); {
 				case c < 4:
 					e.Kind, e.Slot, e.Val = 0, r.Intn(nslots), byte(r.Intn(3))
-				case c < 6:
+				case c < 5:
 					e.Kind = 1
-				case c < 7:
+				case c < 6:
 					e.Kind = 2
-				case c < 9:
-					e.Kind, e.From = 3, 1+r.Intn(v+1)
 				case c < 10:
-					e.Kind = 4
+					e.Kind, e.From = 3, 1+r.Intn(v+1) // back to an earlier content: A -> B -> A re-delivery
+				case c < 12:
+					e.Kind = 4 // rewritten with equal content
 				default:
 					e.Kind, e.From = 5, r.Intn(na)
 				}
